@@ -4,6 +4,7 @@ import (
 	"fmt"
 	"go/token"
 	"sort"
+	"strconv"
 	"strings"
 
 	"golang.org/x/tools/go/ssa"
@@ -14,7 +15,7 @@ import (
 func init() { Registry["C07"] = checkC07 }
 
 func checkC07(p *core.Prog, r *core.Report) {
-	r.Explanation = "Decides structural necessary conditions of restart recovery: (R1) the 64-byte log record: AofLock.Encode and Decode are inverse on every field byte, UpdateAofId rewrites exactly the id positions Encode uses, and Aof.lockAcked's direct reads (DbId, LockKey) hit the positions of that layout; (R2) every change of a persisted hold is logged: on every path of Lock/UnLock/doTimeOut/doExpried/DoAckLock/cancelWaitLock that removes a hold, changes its depth or updates its terms, the path tested the hold as not persisted, or pushes the matching log record before the shard mutex is released; (R3) the lazy persistence hook (AddExpried / AddMillisecondExpried) pushes only when the hold is not yet persisted and persistable, and AddExpried pushes one LOCK record per depth level (replay rebuilds depth from the number of records); (R4) the value blob of a record is written right after its record iff the record announces it (Aof.PushLock) and read before any skip (LoadAofFile); (R5) replayed records are marked FROM_AOF before they reach the engine, and the push functions return before logging a replayed command (no re-logging); (R6) the three places that interpret a record's remaining lifetime dispatch on the same unit flags. (R6) every list of log files built from FindAofFiles (start-up load, compaction, transfer) puts the snapshot before the append files - the list is the replay order. (R7) UnLock clears a hold's persisted mark only on paths that remove the hold (a partial release keeps it). (R8) a Lock object enters the pool (or leaves it) with its persisted mark cleared. (R9) a hold's persistence mode (Lock.aofTime) is assigned from constants, its own request or the database default, never copied from another hold (one known finding: later holders of a shared key inherit the first holder's mode). NOT decided: numeric round-trip of remaining lifetime, rotation across files, equality of the recovered snapshot."
+	r.Explanation = "Decides structural necessary conditions of restart recovery: (R1) the 64-byte log record: AofLock.Encode and Decode are inverse on every field byte, UpdateAofId rewrites exactly the id positions Encode uses, and Aof.lockAcked's direct reads (DbId, LockKey) hit the positions of that layout; (R2) every change of a persisted hold is logged: on every path of Lock/UnLock/doTimeOut/doExpried/DoAckLock/cancelWaitLock that removes a hold, changes its depth or updates its terms, the path tested the hold as not persisted, or pushes the matching log record before the shard mutex is released; (R3) the lazy persistence hook (AddExpried / AddMillisecondExpried) pushes only when the hold is not yet persisted and persistable, and AddExpried pushes one LOCK record per depth level (replay rebuilds depth from the number of records); (R4) the value blob of a record is written right after its record iff the record announces it (Aof.PushLock) and read before any skip (LoadAofFile); (R5) replayed records are marked FROM_AOF before they reach the engine, and the push functions return before logging a replayed command (no re-logging); (R6) the three places that interpret a record's remaining lifetime dispatch on the same unit flags. (R6) every list of log files built from FindAofFiles (start-up load, compaction, transfer) puts the snapshot before the append files - the list is the replay order. (R7) UnLock clears a hold's persisted mark only on paths that remove the hold (a partial release keeps it). (R8) a Lock object enters the pool (or leaves it) with its persisted mark cleared. (R9) a hold's persistence mode (Lock.aofTime) is assigned from constants, its own request or the database default, never copied from another hold (one known finding: later holders of a shared key inherit the first holder's mode). (R10) the expiry written to and read from the log is reduced by the age of the hold for every granularity (the period is returned unchanged only for never-expiring holds, a zero period or a clock that went backwards; a real defect - millisecond holds - was repaired). NOT decided: the rest of the numeric round-trip of remaining lifetime, rotation across files, equality of the recovered snapshot."
 	r.Assumptions = []string{"Go type checker and go/ssa are correct for /repo", "the layout extractor interprets all byte stores of the record codec (uninterpreted statements are reported)"}
 	c07R1(p, r)
 	c07R2(p, r)
@@ -26,6 +27,7 @@ func checkC07(p *core.Prog, r *core.Report) {
 	c07R7(p, r)
 	c07R8(p, r)
 	c07R9(p, r)
+	c07R10(p, r)
 }
 
 func fieldLoadPred(fn *ssa.Function, typ, field string) func(ssa.Value) bool {
@@ -677,4 +679,74 @@ func c07Desc(v ssa.Value, depth int) string {
 		return c07Desc(x.X, depth+1) + x.Op.String() + c07Desc(x.Y, depth+1)
 	}
 	return "?"
+}
+
+// c07R10: "the outage never renews a hold": the log stores what is left of a
+// hold's period when the record is written (GetAofLockExpriedTime) and the
+// loader hands the engine what is left when the record is read
+// (GetLockCommandExpriedTime); the engine then counts that amount from the
+// restart. A path of either function that returns the period unchanged adds
+// the age of the hold to its life - allowed only for never-expiring holds, a
+// zero period, or a clock that went backwards.
+func c07R10(p *core.Prog, r *core.Report) {
+	const rule = "C07/R10"
+	r.Rule(rule, "the expiry written to / read from the log is reduced by the age of the hold for every granularity: the period is returned unchanged only for never-expiring holds, a zero period or a clock that went backwards", 8)
+	unlimited := strconv.FormatInt(mustConst(p, r, "protocol", "EXPRIED_FLAG_UNLIMITED_EXPRIED_TIME"), 10)
+	for _, spec := range []struct{ fn, raw string }{
+		{"server.(*Aof).GetLockCommandExpriedTime", "aofLock.ExpriedTime"},
+		{"server.(*Aof).GetAofLockExpriedTime", "lockCommand.Expried"},
+	} {
+		fn := mustFunc(p, r, spec.fn)
+		if fn == nil {
+			continue
+		}
+		n := 0
+		ex := core.NewExplorer(p, core.Hooks{
+			Track: func(x *core.X, a core.Atom) bool { return true },
+			Exit: func(x *core.X, rets []core.Expr) {
+				if len(rets) == 0 {
+					return
+				}
+				n++
+				var flags []string
+				allowed := ""
+				for h := range x.St.Hist {
+					h = core.Plain(h)
+					if strings.Contains(h, "ExpriedFlag & ") {
+						flags = append(flags, h)
+						if strings.Contains(h, "ExpriedFlag & "+unlimited+") != 0") {
+							allowed = "never-expiring hold"
+						}
+					}
+					if strings.HasSuffix(h, " < 0") && strings.Contains(h, "currentTime") {
+						allowed = "clock went backwards"
+					}
+					if h == spec.raw+" <= 0" || h == "lock.expriedTime <= 0" {
+						allowed = "zero period / no deadline"
+					}
+					if strings.Contains(h, spec.raw) && strings.Contains(h, "expriedTime") && allowed == "" {
+						allowed = "the smaller of the period and what is left of it (" + h + ")"
+					}
+				}
+				sort.Strings(flags)
+				key := fmt.Sprintf("%s: result on the path [%s]", spec.fn, strings.Join(flags, ", "))
+				ret := core.Plain(rets[0].S)
+				switch {
+				case ret != spec.raw:
+					r.Hold(rule, key, x.Pos(), "computed from the deadline / the elapsed time: "+ret)
+				case allowed != "":
+					r.Hold(rule, key, x.Pos(), "period unchanged: "+allowed)
+				default:
+					r.Violate(rule, key, x.Pos(), "the period is returned unchanged ("+spec.raw+") for a hold that expires: the age of the hold is not subtracted, so a restart gives the hold its whole period again (a 60 s millisecond hold stopped after 5 s comes back with 60 s)", x.St.Trace)
+				}
+			},
+		})
+		ex.Run(fn, nil)
+		if ex.Imprecise != "" {
+			r.Fail("C07/R10 %s: %s", spec.fn, ex.Imprecise)
+		}
+		if n == 0 {
+			r.Fail("C07/R10: %s has no return", spec.fn)
+		}
+	}
 }
